@@ -167,7 +167,11 @@ func (p *parser) parseBinaryExpr(left Node) Node {
 	// The result of an expression is not a literal: it cannot be coerced into
 	// a different composite type, see Type.Fixed.
 	binaryExp.T = fixedType(binaryExp.T)
+	errCount := len(p.errors)
 	p.validateBinaryType(binaryExp)
+	if len(p.errors) > errCount {
+		return nil // previous error: the expression has no valid type
+	}
 	if p.isWSS() {
 		p.formatting.recordWSS(binaryExp)
 	}
